@@ -363,6 +363,70 @@ class Program:
                     out.append((b['d'], b['n']))
         return out
 
+    def _inline_new_temps(self, f):
+        """A local that the pinned tree does not have and that merely names a call-free value (sa.canon.temp_init: initialised
+        once, never written, operands not written in its block) is substituted by its initialiser wherever it is used, in the
+        syntax tree: `const bool ok = a < b; return ok;` reads as `return a < b;` to every rule."""
+        kl = getattr(f, '_known_locals', None)
+        if kl is None:
+            return
+        from .canon import temp_init
+        pd = {p['d'] for p in f.params}
+        news = [f.nodes[i] for i in f.walk() if f.nodes[i]['k'] == 'VarDecl' and f.nodes[i].get('n') and f.nodes[i].get('d') not in pd
+                and f.nodes[i]['n'] not in kl and not f.nodes[i].get('static')]
+        for vd in news:
+            uses = [j for j in f.walk() if f.nodes[j]['k'] == 'DeclRefExpr' and f.nodes[j].get('d') == vd['d']]
+            if not uses:
+                continue
+            ini = temp_init(f, vd['d'])
+            if ini is None:
+                # any initialiser (calls included) is transparent when the local is used exactly once, by the statement that
+                # directly follows its declaration: nothing can happen in between
+                ini = self._adjacent_single_use(f, vd, uses)
+            if ini is None:
+                continue
+            pm = f.parent_map()
+            for j in uses:
+                p_ = pm.get(j)
+                # the use is `(lvalue-to-rvalue) ref`: the initialiser (an rvalue already) replaces the cast, not just the reference
+                while p_ is not None and f.nodes[p_]['k'] == 'ImplicitCastExpr' and f.nodes[p_].get('ck') in ('LValueToRValue', 'NoOp'):
+                    j, p_ = p_, pm.get(p_)
+                if p_ is None:
+                    continue
+                pn = f.nodes[p_]
+                pn['c'] = [ini if c == j else c for c in pn.get('c', [])]
+                for fld in ('cond', 'then', 'else', 'init', 'body', 'inc', 'range', 'var'):
+                    if pn.get(fld) == j:
+                        pn[fld] = ini
+            f._parent = None
+            f.__dict__.setdefault('_inlined_temps', []).append(vd['n'])
+
+    @staticmethod
+    def _adjacent_single_use(f, vd, uses):
+        t = vd.get('t') or ''
+        if len(uses) != 1 or vd.get('init') is None or vd['init'] < 0 or t.endswith('&') and not t.startswith('const ') or t.endswith('*'):
+            return None
+        vid = next((i for i in f.walk() if f.nodes[i] is vd), None)
+        if vid is None:
+            return None
+        pm = f.parent_map()
+        ds = pm.get(vid)
+        if ds is None or f.nodes[ds]['k'] != 'DeclStmt' or len(f.kids(ds)) != 1:
+            return None
+        blk = pm.get(ds)
+        if blk is None or f.nodes[blk]['k'] != 'CompoundStmt':
+            return None
+        sib = f.kids(blk)
+        k = sib.index(ds)
+        if k + 1 >= len(sib):
+            return None
+        nxt = sib[k + 1]
+        if f.nodes[nxt]['k'] not in ('ReturnStmt', 'IfStmt') or not f.is_in(uses[0], nxt):
+            return None
+        if f.nodes[nxt]['k'] == 'IfStmt' and not f.is_in(uses[0], f.nodes[nxt]['cond']):
+            return None
+        return vd['init']
+
     CMP_OPS = {'<': '>', '>': '<', '<=': '>=', '>=': '<=', '==': '==', '!=': '!='}
 
     @staticmethod
@@ -578,6 +642,7 @@ class Program:
         for f in self.fns:
             ent = getattr(f, '_pin_ent', None)
             if ent is not None:
+                self._inline_new_temps(f)
                 self._pin_comparisons(f, ent)
                 self._pin_ifelse(f, ent)
 
